@@ -53,7 +53,7 @@ func TestC02Stateful(t *testing.T) {
 func TestC02Matrix(t *testing.T) {
 	theT = t
 	col := ev.New("C02", "matrix",
-		"complete enumeration of single transfer calls: 11 amount classes x every subset of the signer pool x (from,to) in population^2 (3 users, contract account, the Balance contract's own address, empty account) x {entry script, via contract}; every case is a distinct non-trivial debit attempt unless signers = {from}",
+		"complete enumeration of single transfer calls: 11 amount classes x every subset of the signer pool x (from,to) in population^2 (3 users, contract account, the Balance contract's own address, empty account, the Null item) x {entry script, via contract}; every case is a distinct non-trivial debit attempt unless signers = {from}",
 		"state evolves between cases and is re-funded when an account runs dry (the oracle is per transaction and state independent)")
 	defer func() { col.Flush(true) }()
 	ns := []int{1}
@@ -65,6 +65,7 @@ func TestC02Matrix(t *testing.T) {
 		hh := ev.NewHistory()
 		w := newBalWorld(n, hh)
 		pop := w.addrPool(w.state())
+		pop = append(pop, nil) // the Null item (passed as Null, not as an empty byte string)
 		signerPool := w.signerPool()
 		classes := []string{"neg1", "negBig", "zero", "one", "eq", "eq-1", "eq+1", "over", "2^63", "2^255-1", "-2^63"}
 		refund := func() {
@@ -94,7 +95,14 @@ func TestC02Matrix(t *testing.T) {
 							op := &balOp{kind: "transfer", amount: amt, signers: signers, viaActor: via}
 							op.desc = fmt.Sprintf("n=%d transfer(%s->%s,%v[%s]) signers=%s via=%v", n, w.name(from), w.name(to), amt, cls, sig(signers, w.names), via)
 							ok := runCase(t, col, h, func() {
-								p1, p2, out := w.do(op, w.bal, "transfer", from, to, amt, nil)
+								var fromArg, toArg any = from, to
+								if from == nil {
+									fromArg = nil
+								}
+								if to == nil {
+									toArg = nil
+								}
+								p1, p2, out := w.do(op, w.bal, "transfer", fromArg, toArg, amt, nil)
 								w.checkC02(p1, p2, out, op)
 								h.NonTrivial()
 								if b, isb := out.Bool(); out.Halt && isb && b {
